@@ -189,6 +189,15 @@ def partitions(tier, seed):
                       ['len(cid) <= 2', '0 <= ch <= 65535'], PROPS, PRE, 120, family='validator_fixed',
                       bound='Basic.Properties: delivery_mode any integer, cluster_id any string <= 2 code points',
                       rep={'dm': 2, 'cid': '', 'ch': 1}))
+    # "decoding a received frame never applies these checks": wire forms with refused values (C05 generators)
+    from harness import c05
+    for p in c05.partitions(tier, seed):
+        if p.name == 'header_flags' or (p.name.startswith('wire_') and p.name.split('wire_')[1].split('_a')[0].split('_b')[0]
+                                        in ('queue_declare', 'basic_publish', 'connection_open', 'channel_open',
+                                            'exchange_declare', 'basic_getempty', 'connection_openok', 'channel_openok')):
+            p.name = 'recv_' + p.name
+            p.family = 'no_validation_on_receive'
+            parts.append(p)
     tw = _other_part(spec.BY_NAME['Basic.Publish'], 'ticket', 0)
     tw.name, tw.expect, tw.rep = 'twin_v_ticket', 'refuted', None
     tw.body = tw.body.replace('    return a == want', '    return not (a == want)')
@@ -197,12 +206,64 @@ def partitions(tier, seed):
 
 
 # --------------------------------------------------------------------------------------------- K1
+_MEASURE = r'''
+import json, re, sys
+pat, flags = sys.argv[1], int(sys.argv[2])
+rx = re.compile(pat, flags)
+ok = [i for i in range(0x110000) if rx.fullmatch(chr(i))]
+runs, start, prev = [], None, None
+for i in ok:
+    if start is None:
+        start = prev = i
+    elif i == prev + 1:
+        prev = i
+    else:
+        runs.append([start, prev]); start = prev = i
+if start is not None:
+    runs.append([start, prev])
+print(json.dumps({"runs": runs, "empty": bool(rx.fullmatch("")), "two": bool(ok) and bool(rx.fullmatch(chr(ok[0]) * 2))}))
+'''
+
+
+def _measured_star_class(pattern, flags):
+    """for patterns of the shape ^[class]*$ (any flags): the set of single characters the REAL regex
+    engine accepts, measured over all 0x110000 code points (a precomputed static table), as an SMT
+    (re.* (re.union ranges)).  Returns None for any other shape."""
+    import json
+    import subprocess
+    import re._parser as sp
+    try:
+        parsed = list(sp.parse(pattern, flags))
+    except Exception:
+        return None
+    core = [n for n in parsed if n[0] is not sp.AT]
+    ats = [n for n in parsed if n[0] is sp.AT]
+    if len(core) != 1 or core[0][0] is not sp.MAX_REPEAT or len(ats) > 2:
+        return None
+    lo, hi, sub = core[0][1]
+    sub = list(sub)
+    if lo != 0 or hi is not sp.MAXREPEAT or len(sub) != 1 or sub[0][0] is not sp.IN:
+        return None
+    p = subprocess.run(['/venv/bin/python', '-c', _MEASURE, pattern, str(flags)], capture_output=True,
+                       text=True, timeout=300)
+    if p.returncode != 0:
+        return None
+    m = json.loads(p.stdout)
+    if not m['empty'] or not m['two'] or not m['runs']:
+        return None
+    # code points above U+2FFFF are outside z3's character domain: refuse to translate if any is accepted
+    if any(b > 0x2FFFF for a, b in m['runs']):
+        return None
+    rs = ['(re.range %s %s)' % (ksmt.smt_str(chr(a)), ksmt.smt_str(chr(b))) for a, b in m['runs']]
+    return '(re.* %s)' % (rs[0] if len(rs) == 1 else '(re.union %s)' % ' '.join(rs))
+
+
 def _regex_to_smt(pattern, flags):
     """translate a compiled pattern (literal / range / class / star / anchors only) to an SMT RegLan
     for use with fullmatch; returns None when a construct is outside the supported fragment"""
     import re._parser as sp
     if flags & ~(re.UNICODE):
-        return None
+        return _measured_star_class(pattern, flags)
     try:
         parsed = sp.parse(pattern, flags)
     except Exception:
